@@ -124,22 +124,30 @@ func verifC13ShortWrites() {
 // (v) calls for different (dir,name) touch disjoint kernel paths; (durability order) fsync precedes rename.
 func verifC13Disjoint() {
 	fs, root := verifC13Setup()
-	names := []string{"a", "b", "t.idx", "t.dat", "t"}
+	// two names of 252 bytes that differ only in their last byte (with the ".tmp" suffix they exceed
+	// NAME_MAX: the call may refuse them, but must not make the two calls share a path), and two of
+	// 251 bytes (the longest names whose staging name still fits)
+	long := verifRepeat("n", 251)
+	names := []string{"a", "b", "t.idx", "t.dat", "t", long + "x", long + "y", long[:250] + "p", long[:250] + "q"}
 	da, na := verifDirs[verifChoose(2)], names[verifChoose(len(names))]
 	db, nb := verifDirs[verifChoose(2)], names[verifChoose(len(names))]
 	verifAssume(da != db || na != nb)
 	verifKernelTraceReset()
-	fs.AtomicCreate(da, na, verifNondetBytes("x", 1))
+	pa := verifTry(func() { fs.AtomicCreate(da, na, verifNondetBytes("x", 1)) })
 	ta := verifKernelTouched()
 	tr := verifKernelTrace()
 	verifKernelTraceReset()
-	fs.AtomicCreate(db, nb, verifNondetBytes("y", 1))
+	pb := verifTry(func() { fs.AtomicCreate(db, nb, verifNondetBytes("y", 1)) })
 	tb := verifKernelTouched()
 	if !verifNative() {
 		verifAssert("disjoint/paths", !verifSharePath(ta, tb))
-		verifAssert("order/fsync-before-rename", verifBefore(tr, "fsync(", "renameat("))
-		verifAssert("order/write-before-fsync", verifBefore(tr, "write(", "fsync("))
+		verifAssert("disjoint/short-names-accepted", verifOr(len(na) > 251, !pa) && verifOr(len(nb) > 251, !pb))
+		if !pa {
+			verifAssert("order/fsync-before-rename", verifBefore(tr, "fsync(", "renameat("))
+			verifAssert("order/write-before-fsync", verifBefore(tr, "write(", "fsync("))
+		}
 	}
+	mayRefuse := len(na) > 251 || len(nb) > 251 // names whose staging name exceeds NAME_MAX
 	_ = root
 	verifCover("c13/disjoint")
 	if verifNative() { // replay only: the two calls race natively; each must end up with its own data
@@ -150,7 +158,11 @@ func verifC13Disjoint() {
 			ok1, ok2 := <-done, <-done
 			ga, _ := verifKernelFile(root + "/" + da + "/" + na)
 			gb, _ := verifKernelFile(root + "/" + db + "/" + nb)
-			if !ok1 || !ok2 || string(ga) != "AAAA" || string(gb) != "BB" {
+			bad := (ok1 && string(ga) != "AAAA") || (ok2 && string(gb) != "BB")
+			if !mayRefuse && (!ok1 || !ok2) {
+				bad = true
+			}
+			if bad {
 				verifAssert("disjoint/paths", false)
 				return
 			}
@@ -234,4 +246,12 @@ func verifC13Mem() {
 	got := fs.ReadAt(f, 0, 8)
 	verifAssert("mem/exact-content", verifBytesEq(got, keep))
 	verifCover("c13/mem")
+}
+
+func verifRepeat(s string, n int) string {
+	out := ""
+	for i := 0; i < n; i++ {
+		out += s
+	}
+	return out
 }
